@@ -578,6 +578,12 @@ pub fn supervise<P: Prop>(
         if std::env::var("TUVERIF_NO_EXTRA").is_ok() && lane.name.ends_with("-release") {
             continue;
         }
+        // development aid (which lanes catch a seeded change): comma separated lanes to leave out
+        if let Ok(skip) = std::env::var("TUVERIF_SKIP_LANES") {
+            if skip.split(',').any(|x| x == lane.name) {
+                continue;
+            }
+        }
         if scale != 1.0 {
             lane.cases = ((lane.cases as f64 * scale) as u64).max(lane.shards as u64);
             lane.floor = ((lane.floor as f64 * scale * 0.5) as u64).max(2);
